@@ -301,6 +301,10 @@ static std::vector<CS> angle_set(bool full) {
     auto tiny = [](int k) { return CS{(1ll << (2 * k)) - 1, 1ll << (k + 1), (1ll << (2 * k)) + 1}; };           // angle ~ 2^(1-k)
     auto near90 = [](int k, int sg) { return CS{1ll << (k + 1), sg * ((1ll << (2 * k)) - 1), (1ll << (2 * k)) + 1}; };   // +-90 deg -+ 2^(1-k)
     a.push_back(tiny(12)); a.push_back(near90(12, 1)); a.push_back(near90(12, -1));
+    // near +-90 deg with a sine that is NOT of the form 1 - 2^-j (a sine that happens to be exactly representable hides cancellation
+    // in formulas such as sqrt(1 - sin^2)):  t = p/q  ->  cos = 2pq/(p^2+q^2), sin = +-(q^2-p^2)/(p^2+q^2)
+    auto near90r = [](long long p, long long q, int sg) { return CS{2 * p * q, sg * (q * q - p * p), p * p + q * q}; };
+    a.push_back(near90r(3, 8193, 1)); a.push_back(near90r(5, 33554433, -1));
     if (full) { a.push_back({7, 24, 25}); a.push_back({-8, -15, 17}); a.push_back(tiny(20)); a.push_back(tiny(26)); a.push_back(near90(6, 1));
                 a.push_back(near90(20, 1)); a.push_back(near90(26, -1)); a.push_back({20, 21, 29}); a.push_back({-1, 0, 1}); }
     return a;
@@ -545,7 +549,7 @@ template<class T> static void run_type() {
 
 static void body(int argc, char** argv) {
     g_thorough = argc > 2 && std::string(argv[2]) == "thorough";
-#ifdef GLM_FORCE_QUAT_DATA_WXYZ
+#if defined(GLM_FORCE_QUAT_DATA_WXYZ) && !defined(C04_FULL)     // C04_FULL: same program in both layouts (C15 compares the traces)
     g_wxyz_light = true;
 #endif
     run_type<float>();
